@@ -6,7 +6,7 @@ import ast
 from sa.astx import call_name, src
 from sa.selftest import Mutant, Silent
 from sa.source import AnalysisError, class_assigns
-from sa.props._lib_i import sect, COMPAT, BlockRaised, NotPure, Raised, eval_block, interp, peval, words
+from sa.props._lib_i import sect, COMPAT, BlockRaised, FollowModule, NotPure, Raised, eval_block, interp, peval, words
 
 PROPERTY = "C42"
 IMAP = "mail/imap4.py"
@@ -77,7 +77,7 @@ def check(ctx):
     mod = ctx.mod(IMAP)
     delim = _delimiter(ctx)
     env0 = {"string.whitespace": " \t\n\r\x0b\x0c", "DontQuoteMe": _DontQuoteMe, "IMAP4Server.delimiter": delim}
-    funcs = dict(COMPAT)
+    funcs = FollowModule(mod, dict(COMPAT), env0)       # explicit models + every other module-level helper of imap4.py, interpreted on demand
     funcs["hasattr"] = lambda o, n: hasattr(o, n)
 
     # ---- writer: _quote ------------------------------------------------------------------------------------
@@ -131,6 +131,9 @@ def check(ctx):
             ("None -> NIL", [None]), ("int -> decimal atom", [0]), ("int -> decimal atom", [1234567890123]), ("int -> decimal atom", [-3]),
             ("bytes -> quoted", [b""]), ("bytes -> quoted", [b"a b"]), ("bytes -> quoted", [b'a"\\b']), ("bytes -> quoted", [b"NIL"]), ("bytes -> quoted", [b"{3}"]),
             ("bytes with line break -> literal", [b"a\nb"]), ("bytes with line break -> literal", [b"\r"]), ("bytes with line break -> literal", [b'"\\\n)']),
+            ("literal first / middle / last", [b"two\r\nlines", b"x"]), ("literal first / middle / last", [b"x", b"two\r\nlines", 3]), ("literal first / middle / last", [None, b"x", b"\n"]),
+            ("literal first / middle / last", [b"\n", b"\r", b"\r\n"]), ("literal nested", [[b"two\r\nlines"]]), ("literal nested", [[b"two\r\nlines", b"x"], [b"x", b"\n"]]),
+            ("literal nested", [b"a", [[b"\r"], None]]),
             ("nested list -> parenthesised", [[b"x", None]]), ("nested list -> parenthesised", [[]]), ("nested list -> parenthesised", [[[1]], b"y"]),
             ("items separated by one space", [None, 1, b"a"]), ("items separated by one space", []),
         ]
@@ -205,7 +208,7 @@ def check(ctx):
     # ---- whole reader on writer outputs (structures without backslashes: those are F42)
     with sect(ctx, 'whole reader on writer outputs'):
         q = "twisted.mail.imap4.parseNestedParens ~ collapseNestedLists"
-        rf = dict(funcs)
+        rf = FollowModule(mod, dict(funcs), env0)
         for name in ("splitQuoted", "splitOn", "collapseStrings", "parseNestedParens"):
             rf[name] = interp(ctx.func(IMAP, name), rf, env0)
         parse = rf["parseNestedParens"]
@@ -233,7 +236,7 @@ def check(ctx):
     with sect(ctx, 'reader: collapseStrings routes literals around the tokenizer'):
         fs = ctx.func(IMAP, "collapseStrings")
         q = "twisted.mail.imap4.collapseStrings"
-        f2 = dict(funcs)
+        f2 = FollowModule(mod, dict(funcs), env0)
         f2["splitQuoted"] = lambda b: [("TOKENIZED", b)]
         env = dict(env0)
         for st in fs.body:
@@ -311,6 +314,7 @@ MUTANTS = [
            '                pieces.extend([b" ", b"{%d}" % (len(i),), i])\n', expect_rule="writer/item-forms"),
     Mutant("literal-length-of-stripped-data", IMAP, '                pieces.extend([b" ", b"{%d}" % (len(i),), IMAP4Server.delimiter, i])\n',
            '                pieces.extend([b" ", b"{%d}" % (len(i.strip()),), IMAP4Server.delimiter, i])\n', expect_rule="writer/item-forms"),
+    Mutant("literal-glued-to-separator", IMAP, '                pieces.extend([b" ", b"{%d}" % (len(i),), IMAP4Server.delimiter, i])\n', '                pieces.append(b" " + _literal(i))\n', expect_rule="writer/item-forms"),
     Mutant("nil-lowercase", IMAP, '            pieces.extend([b" ", b"NIL"])\n', '            pieces.extend([b" ", b"Nil"])\n', expect_rule="writer/item-forms"),
     Mutant("escape-skips-one-unit", IMAP, "                    contentStack[-1].append(s[i : i + 2])\n                    i += 2\n",
            "                    contentStack[-1].append(s[i : i + 1])\n                    i += 1\n", expect_rule="reader/paren-transitions"),
@@ -330,6 +334,7 @@ MUTANTS = [
 SILENT = [
     Silent("quote-as-loop", IMAP, "    return qu + s.replace(esc, esc + esc).replace(qu, esc + qu) + qu\n",
            "    for ch in (esc, qu):\n        s = s.replace(ch, esc + ch)\n    return qu + s + qu\n"),
+    Silent("literal-through-helper", IMAP, '                pieces.extend([b" ", b"{%d}" % (len(i),), IMAP4Server.delimiter, i])\n', '                pieces.extend([b" ", _literal(i)])\n'),
     Silent("needs-literal-reordered", IMAP, "    return cr in s or lf in s or len(s) > 1000\n", "    return len(s) > 1000 or any(x in s for x in (lf, cr))\n"),
     Silent("paren-test-membership", IMAP, '                elif c == b"(" or c == b"[":\n', '                elif c in (b"(", b"["):\n'),
     Silent("literal-branch-with-inner-loop", IMAP, "                    contentStack[-1].append((s[end + 3 : end + 3 + literalSize],))\n                    i = end + 3 + literalSize\n",
